@@ -143,6 +143,16 @@ void ocgraph_t(Case& c) {
     og.load(seg);
     c.segments++;
     auto b = og.begin(seg), e = og.end(seg);
+    if (!seg.loaded()) {
+      // load() is a no-op once keepInMemory() was called; a segment beyond the in-memory one has
+      // no mapping and must not be dereferenced
+      c.violation(c.key("segment-not-loaded", keep ? "keepInMemory" : ""),
+                  J().kv("what", "load(segment) left the segment unloaded; its edges cannot be read")
+                      .kv("segment_node_begin", (uint64_t)*b).kv("segment_node_end", (uint64_t)*e).kv("nodes", n).kv("edges", m)
+                      .kv("first_node_out_degree", (uint64_t)g.adj[0].size()).kv("first_node_in_degree", (uint64_t)t.adj[0].size())
+                      .kv("transpose_file", withTranspose).str());
+      return;
+    }
     if (*b != next || *e <= *b) {
       c.violation(c.key("segments-not-consecutive"),
                   J().kv("expected_begin", next).kv("begin", (uint64_t)*b).kv("end", (uint64_t)*e).kv("edges_per_segment", (uint64_t)per).str());
